@@ -65,6 +65,7 @@ Lemma sh_has_pend : forall cid l, sh_has cid l = true -> (1 <= pend l)%nat.
 Proof. intros cid l H. pose proof (pend_mark cid l H). lia. Qed.
 
 Ltac live_split := unfold live; prj; repeat split; auto.
+Ltac nlt := first [lia | (unfold lt; auto with arith; fail) | (cbn; lia) | (cbn; unfold lt; auto 20 with arith)].
 
 (* ---------- each phase's owed event leads to the next phase ---------- *)
 Lemma step_fire : forall s id k, gens s = [] -> rejoin_d s = None -> rejoin_needed s = true -> live s -> In (id, k) (timers s) ->
@@ -73,14 +74,14 @@ Proof.
   intros s id k G Rd Rn L Hin. pose proof (existsb_in_timer _ _ _ Hin) as Ex. destruct L as (L1 & L2 & L3 & L4).
   cbn [step]. unfold on_fire. rewrite Ex. unfold remove_timer, join_and_sync, add_gen, mu. ds s. cbn in G, Rd, Rn, L1, L2, L3, L4. subst.
   destruct grp; destruct dc0 as [|i|]; prj; try (assert (E : exists b, (i =? id) = b) by eauto; destruct E as [[|] E]; rewrite E); prj;
-    (split; [live_split|cbn; lia]).
+    (split; [live_split|nlt]).
 Qed.
 
 Lemma step_lookup : forall s gid rid, gens s = [mkGen gid (GLookup rid)] -> live s ->
   let s' := fst (step s (ELookup rid LBroker)) in live s' /\ (mu s' < mu s)%nat.
 Proof.
   intros s gid rid G L. destruct L as (L1 & L2 & L3 & L4). cbn [step]. unfold on_lookup, with_gen, mu. rewrite G.
-  cbn [take_first awaits g_ph]. rewrite Z.eqb_refl. unfold fresh_rid, add_gen. ds s. cbn in *. subst. split; [live_split|lia].
+  cbn [take_first awaits g_ph]. rewrite Z.eqb_refl. unfold fresh_rid, add_gen. ds s. cbn in *. subst. split; [live_split|nlt].
 Qed.
 
 Lemma step_meta : forall s gid rid, gens s = [mkGen gid (GMeta rid)] -> live s ->
@@ -88,7 +89,7 @@ Lemma step_meta : forall s gid rid, gens s = [mkGen gid (GMeta rid)] -> live s -
 Proof.
   intros s gid rid G L. destruct L as (L1 & L2 & L3 & L4). cbn [step]. unfold on_meta, with_gen, mu. rewrite G.
   cbn [take_first awaits g_ph]. rewrite Z.eqb_refl. unfold stop_pend, prepare_and_join, begin_shutdown, send_join, fresh_rid, add_gen.
-  ds s. cbn in G, L1, L2, L3, L4. subst. destruct grp; destruct cs as [|c cs']; prj; (split; [live_split|cbn [gens g_ph]; rewrite ?pend_fresh; cbn; lia]).
+  ds s. cbn in G, L1, L2, L3, L4. subst. destruct grp; destruct cs as [|c cs']; prj; (split; [live_split|cbn [gens g_ph]; rewrite ?pend_fresh; nlt]).
 Qed.
 
 Lemma step_cshut : forall s gid l cid, gens s = [mkGen gid (GPrepare l)] -> live s -> sh_has cid l = true ->
@@ -98,8 +99,8 @@ Proof.
   cbn [take_first gen_list g_ph]. rewrite Hh. cbn [gen_list g_ph g_id].
   pose proof (pend_mark cid l Hh) as PM. pose proof (sh_has_pend cid l Hh) as P1.
   destruct (sh_all_done (sh_mark_done cid l)).
-  - unfold after_prepare, stop_pend, send_join, fresh_rid, add_gen. ds s. cbn in G, L1, L2, L3, L4. subst. prj. split; [live_split|cbn; lia].
-  - ds s. cbn in G, L1, L2, L3, L4. subst. prj. split; [live_split|cbn; lia].
+  - unfold after_prepare, stop_pend, send_join, fresh_rid, add_gen. ds s. cbn in G, L1, L2, L3, L4. subst. prj. split; [live_split|nlt].
+  - ds s. cbn in G, L1, L2, L3, L4. subst. prj. split; [live_split|nlt].
 Qed.
 
 Lemma step_join : forall s gid rid gn mem role, gens s = [mkGen gid (GJoin rid)] -> live s -> role = 0 \/ role = 1 ->
@@ -107,7 +108,7 @@ Lemma step_join : forall s gid rid gn mem role, gens s = [mkGen gid (GJoin rid)]
 Proof.
   intros s gid rid gn' mem' role G L R. destruct L as (L1 & L2 & L3 & L4). cbn [step]. unfold on_join, with_gen, mu. rewrite G.
   cbn [take_first awaits g_ph]. rewrite Z.eqb_refl. unfold seq, upd, stop_pend, send_sync, fresh_rid, add_gen.
-  ds s. cbn in G, L1, L2, L3, L4. subst. destruct R as [-> | ->]; prj; (split; [live_split|cbn; lia]).
+  ds s. cbn in G, L1, L2, L3, L4. subst. destruct R as [-> | ->]; prj; (split; [live_split|nlt]).
 Qed.
 
 Lemma step_parts : forall s gid rid, gens s = [mkGen gid (GParts rid)] -> live s ->
@@ -115,5 +116,320 @@ Lemma step_parts : forall s gid rid, gens s = [mkGen gid (GParts rid)] -> live s
 Proof.
   intros s gid rid G L. destruct L as (L1 & L2 & L3 & L4). cbn [step]. unfold on_parts, with_gen, mu. rewrite G.
   cbn [take_first awaits g_ph]. rewrite Z.eqb_refl. unfold stop_pend, send_sync, fresh_rid, add_gen.
-  ds s. cbn in G, L1, L2, L3, L4. subst. prj. split; [live_split|cbn; lia].
+  ds s. cbn in G, L1, L2, L3, L4. subst. prj. split; [live_split|nlt].
+Qed.
+
+Lemma step_sync : forall s gid rid asg, gens s = [mkGen gid (GSync rid)] -> live s ->
+  let s' := fst (step s (ESync rid (SOk asg))) in
+  live s' /\ gens s' = [] /\ rejoin_needed s' = false /\ hb_running s' = true /\ (mu s' < mu s)%nat.
+Proof.
+  intros s gid rid asg G L. destruct L as (L1 & L2 & L3 & L4). cbn [step]. unfold on_sync, with_gen. rewrite G.
+  cbn [take_first awaits g_ph]. rewrite Z.eqb_refl.
+  replace (stop_pend (set_gens [] s)) with false by (unfold stop_pend; ds s; cbn in *; subst; reflexivity).
+  rewrite !seq_fst. unfold upd at 1 2, gen_end. cbn [fst]. rewrite reset_hb_fst. unfold upd. cbn [fst].
+  set (sA := set_rejoin_needed false (set_hb_running true (set_cur_assign asg (set_gens [] s)))).
+  assert (X : exists cs', same_core (set_consumers cs' sA) (fst (on_join_complete asg sA))).
+  { unfold on_join_complete. destruct (is_group sA); [|exists (consumers sA); cbn [fst]; ds s; frame].
+    destruct (stop_requested sA); [exists (consumers sA); cbn [fst]; ds s; frame|].
+    destruct (start_consumers_spec (group_by_topic asg) sA) as [A _]. eauto. }
+  destruct X as (cs' & SC). unfold same_core in SC. destruct SC as (_&_&_&E4&E5&E6&E7&_&_&E10&_&E12&_&_&_&_&E17).
+  destruct (fst (on_join_complete asg sA)) eqn:EE. subst sA. ds s. cbn in *. subst.
+  repeat split; auto; try congruence. unfold mu. cbn. nlt.
+Qed.
+
+(* ---------- every owed event keeps the member live and strictly decreases the measure ---------- *)
+Lemma owed_step : forall s e, Inv s -> live s -> owed s e ->
+  live (fst (step s e)) /\ (mu (fst (step s e)) < mu s)%nat.
+Proof.
+  intros s e I L O. destruct L as (L1 & L2 & L3 & L4). pose proof (j8 _ _ (i_core _ I) L2) as S8. cbn in S8.
+  assert (L : live s) by (unfold live; auto).
+  unfold owed in O. destruct (gens s) as [|g [|g' r]] eqn:G; [| |destruct O].
+  - destruct O as (Rn & id & k & -> & Hin). destruct S8 as [[_ Rd]|(g0 & X & _)]; [|discriminate].
+    apply (step_fire s id k); auto.
+  - destruct g as [gid ph]. cbn [g_ph] in O. destruct ph.
+    + subst e. apply (step_lookup s gid rid); auto.
+    + subst e. apply (step_meta s gid rid); auto.
+    + destruct O as (cid & -> & Hh). apply (step_cshut s gid l cid); auto.
+    + destruct O as (gn & mem & role & -> & R). apply (step_join s gid rid); auto.
+    + subst e. apply (step_parts s gid rid); auto.
+    + destruct O as (asg & ->). destruct (step_sync s gid rid asg G L) as (A & _ & _ & _ & B). auto.
+Qed.
+
+(* ---------- no deadlock: as long as the member is not stable something is owed ---------- *)
+Definition prep_live (s : state) : Prop := forall g l, In g (gens s) -> g_ph g = GPrepare l -> sh_all_done l = false.
+
+Lemma not_all_done_has : forall l, sh_all_done l = false -> exists cid, sh_has cid l = true.
+Proof.
+  unfold sh_all_done, sh_has. induction l as [|x l IH]; cbn; [discriminate|]. destruct (sh_done x) eqn:D; cbn.
+  - intros H. destruct (IH H) as (cid & X). exists cid. rewrite X. apply orb_true_r.
+  - intros _. exists (c_id (sh_c x)). rewrite Z.eqb_refl. reflexivity.
+Qed.
+
+Lemma no_deadlock : forall s, Inv s -> live s -> prep_live s -> (0 < mu s)%nat -> exists e, owed s e.
+Proof.
+  intros s I L PL M. destruct L as (L1 & L2 & L3 & L4). pose proof (j8 _ _ (i_core _ I) L2) as S8. cbn in S8.
+  unfold owed, mu in *. destruct (gens s) as [|g [|g' r]] eqn:G.
+  - destruct (rejoin_needed s) eqn:Rn; [|lia].
+    destruct (i_prog _ I L1 L2 L3 L4) as [X|[[X _]|X]]; [congruence|congruence|].
+    destruct (timers s) as [|[id k] t]; [congruence|]. exists (EFire id). split; auto. exists id, k. split; auto. left; auto.
+  - destruct g as [gid ph]. cbn [g_ph] in *. destruct ph; eauto.
+    + destruct (not_all_done_has l (PL _ l (or_introl eq_refl) eq_refl)) as (cid & X). eauto.
+    + exists (EJoin rid (JOk 0 0 0)). eauto 6.
+    + exists (ESync rid (SOk [])). eauto.
+  - destruct S8 as [[X _]|(g0 & X & _)]; discriminate.
+Qed.
+
+Lemma mu_zero_stable : forall s, Inv s -> live s -> mu s = 0%nat -> gens s = [] /\ rejoin_needed s = false /\ hb_running s = true.
+Proof.
+  intros s I L M. destruct L as (L1 & L2 & L3 & L4). unfold mu in M. destruct (gens s) as [|g r] eqn:G.
+  - destruct (rejoin_needed s) eqn:Rn; [lia|]. repeat split; auto. exact (i_stab _ I L2 Rn).
+  - destruct (g_ph g); lia.
+Qed.
+
+(* ---------- the run: only owed events are delivered (fairness premise: the environment answers what the member waits for,
+   fault-free; nothing else happens) ---------- *)
+Fixpoint owed_all (s : state) (es : list event) : Prop :=
+  match es with [] => True | e :: r => owed s e /\ owed_all (fst (step s e)) r end.
+
+Lemma settles_run : forall grp es evs, let s := state_after grp evs in
+  live s -> owed_all s es ->
+  let s' := state_after grp (evs ++ es) in live s' /\ (length es + mu s' <= mu s)%nat.
+Proof.
+  intros grp es. induction es as [|e es IH]; intros evs s L O.
+  - rewrite app_nil_r. fold s. split; auto.
+  - destruct O as [O1 O2]. pose proof (owed_step s e (reachable_Inv grp evs) L O1) as [L' M'].
+    assert (E : fst (step s e) = state_after grp (evs ++ [e])).
+    { unfold s, state_after. rewrite fold_left_app. reflexivity. }
+    rewrite E in L', M', O2. specialize (IH (evs ++ [e]) L' O2). cbv zeta in IH. rewrite <- app_assoc in IH. cbn [app] in IH.
+    destruct IH as [A B]. split; [exact A|]. cbn [length]. lia.
+Qed.
+
+Lemma settles : forall grp es evs, let s := state_after grp evs in
+  live s -> owed_all s es ->
+  let s' := state_after grp (evs ++ es) in
+  (length es <= mu s)%nat /\ live s' /\
+  ((forall e, ~ owed s' e) -> prep_live s' -> gens s' = [] /\ rejoin_needed s' = false /\ hb_running s' = true) /\
+  (prep_live s' -> (0 < mu s')%nat -> exists e, owed s' e).
+Proof.
+  intros grp es evs s L O. destruct (settles_run grp es evs L O) as [L' B]. cbv zeta.
+  pose proof (reachable_Inv grp (evs ++ es)) as I'. split; [fold s; lia|]. split; [exact L'|]. split.
+  - intros NO PL. apply mu_zero_stable; auto. destruct (mu (state_after grp (evs ++ es))) eqn:M; auto.
+    destruct (no_deadlock _ I' L' PL ltac:(lia)) as (e & X). exfalso. exact (NO e X).
+  - intros PL M. apply no_deadlock; auto.
+Qed.
+
+Lemma mu_bound : forall s, (mu s <= 7 + length (consumers s) + length (shutting s))%nat.
+Proof.
+  intros s. unfold mu, shutting. destruct (gens s) as [|g r]; [destruct (rejoin_needed s); lia|].
+  destruct (g_ph g) eqn:P; try lia. cbn [flat_map]. rewrite !app_length. unfold gen_list. rewrite P.
+  unfold sh_pending_ids, pend. rewrite map_length. lia.
+Qed.
+
+(* ---------- prep_live is an invariant: a generator is never left waiting for a shutdown list that is already complete ---------- *)
+Definition gsub (a : act) : Prop := forall s g, In g (gens (fst (a s))) -> In g (gens s).
+
+Lemma gs_seq : forall a b, gsub a -> gsub b -> gsub (a ;; b).
+Proof. intros a b Ha Hb s g H. rewrite seq_fst in H. apply Ha. apply Hb. exact H. Qed.
+Lemma gs_same : forall (a : act), (forall s, gens (fst (a s)) = gens s) -> gsub a.
+Proof. intros a H s g X. rewrite H in X. exact X. Qed.
+Lemma gs_ogl : gsub on_group_leave.
+Proof. apply gs_same. intros s. pose proof (ogl_fields s) as F. cbv zeta in F. intuition. Qed.
+Lemma gs_gen_end : gsub gen_end. Proof. apply gs_same. intros s. ds s. reflexivity. Qed.
+Lemma gs_emit : forall o, gsub (emit o). Proof. intros o. apply gs_same. reflexivity. Qed.
+Lemma gs_emits : forall o, gsub (emits o). Proof. intros o. apply gs_same. reflexivity. Qed.
+Lemma gs_finish_stop : forall st c, gsub (finish_stop st c).
+Proof. intros st c. apply gs_same. intros s. unfold finish_stop. ds s. destruct grp; reflexivity. Qed.
+Lemma gs_cancel_gen : forall gid, gsub (cancel_gen gid).
+Proof.
+  intros gid s g H. unfold cancel_gen in H. destruct (take_first _ (gens s)) as [[g0 rest]|] eqn:T; [|exact H].
+  destruct (take_first_in _ _ _ _ _ T) as [_ R]. apply R.
+  destruct (g_ph g0); unfold seq, emit, emits, gen_end, upd in H; cbn [fst] in H; ds s; exact H.
+Qed.
+Lemma gs_stop_tail : forall st, gsub (stop_tail st).
+Proof.
+  intros st s g H. unfold stop_tail in H.
+  assert (X : forall g0, In g0 (gens (fst (match rejoin_d s with Some gid => cancel_gen gid (set_rejoin_d None s) | None => (s, []) end))) -> In g0 (gens s)).
+  { intros g0 Y. destruct (rejoin_d s); [apply gs_cancel_gen in Y; ds s; exact Y|exact Y]. }
+  destruct (match rejoin_d s with Some gid => cancel_gen gid (set_rejoin_d None s) | None => (s, []) end) as [s1 o1]. cbn [fst] in X.
+  apply X. ds s1. unfold finish_stop in H. destruct sd; destruct grp; exact H.
+Qed.
+Lemma gs_coord_stop : forall st, gsub (coord_stop st).
+Proof.
+  intros st s g. ds s. destruct sd as [idx|]; [|unfold coord_stop; cbn [start_d]; apply gs_finish_stop].
+  destruct stp; [unfold coord_stop; cbn [start_d stopping]; apply gs_finish_stop|].
+  destruct dc0 as [|i|]; [| |unfold coord_stop; cbn [start_d stopping dc set_rejoin_needed set_stopping]; intros H; apply gs_finish_stop in H; exact H];
+    destruct hbq as [rid|]; destruct hbr; destruct ck; destruct (mem =? 0) eqn:M;
+    unfold coord_stop, hb_stop, remove_timer; prj; rewrite ?M; prj.
+  all: try match goal with |- context [stop_tail ?st0 ?s0] =>
+         let Y := fresh in pose proof (gs_stop_tail st0 s0 g) as Y; destruct (stop_tail st0 s0) as [s3 o4]; prj; exact Y end.
+  all: auto.
+Qed.
+Lemma gs_do_stop : forall idx err, gsub (do_stop idx err).
+Proof.
+  intros idx err s g H. unfold do_stop in H. destruct (is_group s).
+  - destruct (consumers (set_stop_requested true s)); [apply gs_coord_stop in H; ds s; exact H|]. unfold begin_shutdown in H. ds s. exact H.
+  - apply gs_coord_stop in H. exact H.
+Qed.
+Lemma gs_fatal : forall k, gsub (fatal k). Proof. intros k. unfold fatal. apply gs_seq; [apply gs_ogl|apply gs_do_stop]. Qed.
+Lemma gs_resched : forall d, gsub (resched d).
+Proof.
+  intros d. apply gs_same. intros s. unfold resched. destruct (stopping s); [reflexivity|].
+  unfold schedule_rejoin, new_timer. ds s. destruct dc0; reflexivity.
+Qed.
+Lemma gs_upd_member : gsub (upd (set_member 0)). Proof. apply gs_same. intros s. ds s. reflexivity. Qed.
+Lemma gs_rae : forall k, gsub (rejoin_after_error k).
+Proof.
+  intros k. destruct k; cbn [rejoin_after_error].
+  - apply gs_resched.
+  - apply gs_seq; [apply gs_emit|apply gs_resched].
+  - apply gs_seq; [apply gs_emit|apply gs_resched].
+  - apply gs_seq; [apply gs_ogl|apply gs_resched].
+  - apply gs_seq; [apply gs_ogl|apply gs_seq; [apply gs_upd_member|apply gs_resched]].
+  - apply gs_seq; [apply gs_ogl|apply gs_seq; [apply gs_upd_member|apply gs_resched]].
+  - apply gs_resched.
+  - apply gs_seq; [apply gs_ogl|apply gs_seq; [apply gs_emit|apply gs_resched]].
+  - apply gs_resched.
+  - intros s. destruct (stopping s); [auto|apply gs_fatal].
+  - apply gs_fatal.
+Qed.
+Lemma gs_gen_fail : forall k, gsub (gen_fail k).
+Proof. intros k. unfold gen_fail. apply gs_seq; [apply gs_gen_end|]. destruct (is_kafka k); [apply gs_rae|]. apply gs_same. intros s. ds s. reflexivity. Qed.
+Lemma gs_coord_retry_end : forall d, gsub (coord_retry d ;; gen_end).
+Proof. intros d. apply gs_same. intros s. rewrite seq_fst. ds s. reflexivity. Qed.
+
+Lemma pl_sub : forall s s', (forall g, In g (gens s') -> In g (gens s)) -> prep_live s -> prep_live s'.
+Proof. intros s s' H P g l Hin E. apply (P g l); auto. Qed.
+Lemma pl_add : forall s g, prep_live s -> (forall l, g_ph g = GPrepare l -> sh_all_done l = false) -> prep_live (add_gen g s).
+Proof.
+  intros s g P H g' l Hin E. unfold add_gen in Hin. assert (X : gens (set_gens (g :: gens s) s) = g :: gens s) by (ds s; reflexivity).
+  rewrite X in Hin. destruct Hin as [<-|Hin]; [apply H; exact E|apply (P g' l); auto].
+Qed.
+Lemma pl_rest : forall s g rest (p : gen -> bool), take_first p (gens s) = Some (g, rest) -> prep_live s -> prep_live (set_gens rest s).
+Proof.
+  intros s g rest p T P. apply (pl_sub s); auto. intros g0 H. destruct (take_first_in _ _ _ _ _ T) as [_ R]. apply R. ds s. exact H.
+Qed.
+Lemma pl_gsub : forall (a : act) s, gsub a -> prep_live s -> prep_live (fst (a s)).
+Proof. intros a s G P. apply (pl_sub s); auto. Qed.
+Lemma pl_frame : forall s s', gens s' = gens s -> prep_live s -> prep_live s'.
+Proof. intros s s' E P. apply (pl_sub s); auto. intros g H. rewrite E in H. exact H. Qed.
+
+Lemma pl_send_join : forall gid s, prep_live s -> prep_live (fst (send_join gid s)).
+Proof.
+  intros gid s P. change (fst (send_join gid s)) with (add_gen (mkGen gid (GJoin (next_rid s))) (set_next_rid (next_rid s + 1) s)).
+  apply pl_add; [apply (pl_frame s); [ds s; reflexivity|exact P]|discriminate].
+Qed.
+Lemma pl_send_sync : forall gid ld s, prep_live s -> prep_live (fst (send_sync gid ld s)).
+Proof.
+  intros gid ld s P. change (fst (send_sync gid ld s)) with (add_gen (mkGen gid (GSync (next_rid s))) (set_next_rid (next_rid s + 1) s)).
+  apply pl_add; [apply (pl_frame s); [ds s; reflexivity|exact P]|discriminate].
+Qed.
+Lemma fresh_not_done : forall (c : consumer) l, sh_all_done (map (fun c => mkSh c false) (c :: l)) = false.
+Proof. reflexivity. Qed.
+Lemma pl_prepare_and_join : forall gid s, prep_live s -> prep_live (fst (prepare_and_join gid s)).
+Proof.
+  intros gid s P. unfold prepare_and_join. destruct (is_group s); [|apply pl_send_join; auto].
+  destruct (consumers s) as [|c l] eqn:C; [apply pl_send_join; auto|]. unfold begin_shutdown. cbn [fst].
+  apply pl_add; [apply (pl_frame s); [ds s; reflexivity|exact P]|]. intros l0 E. cbn in E. inversion E. rewrite C. reflexivity.
+Qed.
+Lemma pl_after_prepare : forall gid s, prep_live s -> prep_live (fst (after_prepare gid s)).
+Proof. intros gid s P. unfold after_prepare. destruct (stop_pend s); [apply pl_gsub; [apply gs_gen_end|auto]|apply pl_send_join; auto]. Qed.
+Lemma pl_join_and_sync : forall s, prep_live s -> prep_live (fst (join_and_sync s)).
+Proof.
+  intros s P. unfold join_and_sync. destruct (is_group s && stop_requested s).
+  - cbn [fst]. destruct (dc s); [apply (pl_frame s); [ds s; reflexivity|auto]|auto|apply (pl_frame s); [ds s; reflexivity|auto]].
+  - destruct (negb (rejoin_needed (set_dc DcNone s))); [cbn [fst]; apply (pl_frame s); [ds s; reflexivity|auto]|].
+    destruct (rejoin_d (set_dc DcNone s)); cbn [fst]; [apply (pl_frame s); [ds s; reflexivity|auto]|].
+    match goal with |- prep_live (set_rejoin_d _ (add_gen ?g ?x)) => apply (pl_frame (add_gen g x)); [unfold add_gen; ds s; reflexivity|] end.
+    apply pl_add; [apply (pl_frame s); [ds s; reflexivity|auto]|discriminate].
+Qed.
+Lemma pl_sync_ok : forall asg (a tl : act) s, (forall s0, gens (fst (a s0)) = gens s0) -> gsub tl -> prep_live s ->
+  prep_live (fst ((upd (set_cur_assign asg) ;; reset_heartbeat_timer ;; upd (set_rejoin_needed false) ;; a ;; tl) s)).
+Proof.
+  intros asg a tl s Ha Htl P. rewrite !seq_fst. apply pl_gsub; auto. apply (pl_frame s); [|exact P].
+  rewrite Ha. unfold upd. cbn [fst]. rewrite reset_hb_fst. ds s. reflexivity.
+Qed.
+Lemma gens_start_consumers : forall tps s, gens (fst (start_consumers tps s)) = gens s.
+Proof.
+  intros tps s. destruct (start_consumers_spec tps s) as [SC _]. unfold same_core in SC.
+  destruct SC as (_&_&_&_&_&_&_&_&_&_&_&E&_). rewrite E. ds s. reflexivity.
+Qed.
+Lemma gens_join_complete : forall asg s, gens (fst (on_join_complete asg s)) = gens s.
+Proof.
+  intros asg s. unfold on_join_complete. destruct (is_group s); [|reflexivity]. destruct (stop_requested s); [reflexivity|apply gens_start_consumers].
+Qed.
+
+Lemma sh_fail_all_done : forall cid l, sh_all_done (sh_fail cid l) = sh_all_done l.
+Proof. intros cid l. unfold sh_all_done, sh_fail. induction l as [|x l IH]; cbn; auto. rewrite IH. reflexivity. Qed.
+
+Lemma step_prep_live : forall s e, prep_live s -> prep_live (fst (step s e)).
+Proof.
+  intros s e P. destruct e; cbn [step].
+  - destruct (start_d s); [exact P|]. match goal with |- context [join_and_sync ?x] => pose proof (pl_join_and_sync x) as J; destruct (join_and_sync x) end.
+    cbn [fst] in *. apply J. apply (pl_frame s); [ds s; reflexivity|exact P].
+  - match goal with |- context [do_stop ?a ?b ?x] => pose proof (pl_gsub (do_stop a b) x (gs_do_stop a b)) as J; destruct (do_stop a b x) end.
+    cbn [fst] in *. apply J. apply (pl_frame s); [ds s; reflexivity|exact P].
+  - unfold on_lookup, with_gen. destruct (take_first _ (gens s)) as [[g rest]|] eqn:T; [|exact P]. pose proof (pl_rest _ _ _ _ T P) as P1.
+    destruct r as [| |k].
+    + unfold fresh_rid. cbn [fst]. apply pl_add; [apply (pl_frame (set_gens rest s)); [ds s; reflexivity|exact P1]|discriminate].
+    + apply pl_gsub; [apply gs_coord_retry_end|exact P1].
+    + destruct k; try (apply pl_gsub; [apply gs_coord_retry_end|exact P1]); (apply pl_gsub; [apply gs_gen_fail|exact P1]).
+  - unfold on_meta, with_gen. destruct (take_first _ (gens s)) as [[g rest]|] eqn:T; [|exact P]. pose proof (pl_rest _ _ _ _ T P) as P1.
+    destruct r as [|k]; [|apply pl_gsub; [apply gs_gen_fail|exact P1]].
+    destruct (stop_pend _); [apply pl_gsub; [apply gs_gen_end|exact P1]|].
+    apply pl_prepare_and_join. apply (pl_frame (set_gens rest s)); [ds s; reflexivity|exact P1].
+  - unfold on_join, with_gen. destruct (take_first _ (gens s)) as [[g rest]|] eqn:T; [|exact P]. pose proof (pl_rest _ _ _ _ T P) as P1.
+    destruct r as [gn mem role|k]; [|apply pl_gsub; [apply gs_seq; [apply gs_rae|apply gs_gen_end]|exact P1]].
+    rewrite seq_fst. unfold upd at 1. cbn [fst]. cbv beta.
+    set (s1 := set_cur_assign [] (set_generation gn (set_member mem (set_gens rest s)))).
+    assert (P2 : prep_live s1) by (apply (pl_frame (set_gens rest s)); [subst s1; destruct s; reflexivity|exact P1]). clearbody s1.
+    destruct (stop_pend s1); [apply pl_gsub; [apply gs_gen_end|exact P2]|].
+    destruct (role =? 0); [apply pl_send_sync; exact P2|]. destruct (role =? 1); [|apply pl_gsub; [apply gs_gen_fail|exact P2]].
+    unfold fresh_rid. cbn [fst]. apply pl_add; [apply (pl_frame s1); [destruct s1; reflexivity|exact P2]|discriminate].
+  - unfold on_parts, with_gen. destruct (take_first _ (gens s)) as [[g rest]|] eqn:T; [|exact P]. pose proof (pl_rest _ _ _ _ T P) as P1.
+    destruct r as [| |k]; try (apply pl_gsub; [apply gs_gen_fail|exact P1]).
+    destruct (stop_pend _); [apply pl_gsub; [apply gs_gen_end|exact P1]|apply pl_send_sync; exact P1].
+  - unfold on_sync, with_gen. destruct (take_first _ (gens s)) as [[g rest]|] eqn:T; [|exact P]. pose proof (pl_rest _ _ _ _ T P) as P1.
+    destruct r as [asg| | |k|asg n]; try (apply pl_gsub; [apply gs_seq; [apply gs_rae|apply gs_gen_end]|exact P1]).
+    all: destruct (stop_pend _); [apply pl_gsub; [apply gs_gen_end|exact P1]|].
+    + apply pl_sync_ok; [apply gens_join_complete|apply gs_gen_end|exact P1].
+    + apply pl_gsub; [apply gs_gen_fail|exact P1].
+    + apply pl_gsub; [apply gs_gen_fail|exact P1].
+    + destruct (ctor_raises _ _ _); [apply pl_sync_ok; [apply gens_start_consumers|apply gs_gen_fail|exact P1]
+                                    |apply pl_sync_ok; [apply gens_join_complete|apply gs_gen_end|exact P1]].
+  - unfold on_tick. destruct (hb_running s); [|exact P]. destruct (_ || _); [exact P|]. cbn [fst]. apply (pl_frame s); [ds s; reflexivity|exact P].
+  - unfold on_hb_reply. destruct (hb_req s); [|exact P]. destruct (_ =? _); [|exact P].
+    assert (P1 : prep_live (set_hb_req None s)) by (apply (pl_frame s); [ds s; reflexivity|exact P]).
+    destruct r; [exact P1|]. destruct (hb_running _); [|exact P1].
+    apply pl_gsub; [apply gs_seq; [apply gs_same; intros s0; ds s0; reflexivity|apply gs_rae]|exact P1].
+  - unfold on_fire. destruct (existsb _ _); [|exact P]. apply pl_join_and_sync. apply (pl_frame s); [|exact P].
+    unfold remove_timer. ds s. destruct dc0 as [|i|]; cbn; try (destruct (i =? id)); reflexivity.
+  - unfold on_leave. destruct (take_first _ _) as [[st rest]|]; [|exact P]. apply pl_gsub; [apply gs_stop_tail|].
+    apply (pl_frame s); [destruct r; ds s; reflexivity|exact P].
+  - unfold on_cfail. destruct (can_fail cid s); [|exact P].
+    match goal with |- context [rejoin_after_error k ?x] => set (s1 := x) end.
+    assert (P1 : prep_live s1).
+    { subst s1. intros g l Hin E. assert (X : In g (map (gen_fail_c cid) (gens s))) by (ds s; exact Hin).
+      apply in_map_iff in X. destruct X as (g0 & <- & Hg0). unfold gen_fail_c in E. destruct (g_ph g0) eqn:E0; cbn in E; try (rewrite E0 in E; discriminate).
+      inversion E. rewrite sh_fail_all_done. apply (P g0 l0); auto. }
+    clearbody s1. destruct k; try (apply pl_gsub; [apply gs_rae|exact P1]). destruct (consumers s1); [exact P1|apply pl_gsub; [apply gs_rae|exact P1]].
+  - unfold on_cshut. destruct (take_first (fun g => sh_has cid (gen_list g)) (gens s)) as [[g rest]|] eqn:T.
+    + pose proof (pl_rest _ _ _ _ T P) as P1. destruct ok.
+      * destruct (sh_all_done (sh_mark_done cid (gen_list g))) eqn:AD; [apply pl_after_prepare; exact P1|]. cbn [fst].
+        change (set_gens (mkGen (g_id g) (GPrepare (sh_mark_done cid (gen_list g))) :: rest) s)
+          with (add_gen (mkGen (g_id g) (GPrepare (sh_mark_done cid (gen_list g)))) (set_gens rest s)).
+        apply pl_add; [exact P1|]. intros l E. cbn in E. inversion E. subst. exact AD.
+      * rewrite emits_fst. apply pl_after_prepare. exact P1.
+    + destruct (take_first (fun st => sh_has cid (stop_list st)) (stops s)) as [[st rest]|]; [|exact P].
+      assert (P1 : forall x, prep_live (set_stops x s)) by (intros x; apply (pl_frame s); [ds s; reflexivity|exact P]).
+      destruct ok.
+      * destruct (sh_all_done _); [apply pl_gsub; [apply gs_coord_stop|apply P1]|apply P1].
+      * rewrite emits_fst. apply pl_gsub; [apply gs_coord_stop|apply P1].
+Qed.
+
+Lemma reachable_prep_live : forall grp evs, prep_live (state_after grp evs).
+Proof.
+  intros grp evs. unfold state_after.
+  assert (G : forall s, prep_live s -> prep_live (fold_left (fun s e => fst (step s e)) evs s)).
+  { induction evs as [|e evs IH]; intros s H; cbn [fold_left]; auto. apply IH. apply step_prep_live. exact H. }
+  apply G. intros g l H. destruct grp; destruct H.
 Qed.
